@@ -97,11 +97,13 @@ func wrapCustom(op *CustomOp, cfgRec *Recorder) eval.Operator {
 	return func(ctx *eval.Ctx, params []eval.Value) (eval.Value, error) {
 		args := toIfaces(params)
 		res, err := op.Fn(args)
-		rec := cfgRec
-		if ctx != nil {
-			if rf, ok := ctx.VariableFetcher.(*RecFetcher); ok && rf.Rec != nil {
-				rec = rf.Rec
-			}
+		// compile-time invocations (nil ctx) go to the config-level recorder; run-time
+		// invocations only to the per-call recorder of their own context (never to shared state)
+		var rec *Recorder
+		if ctx == nil {
+			rec = cfgRec
+		} else if rf, ok := ctx.VariableFetcher.(*RecFetcher); ok {
+			rec = rf.Rec
 		}
 		if rec != nil {
 			if ctx == nil {
